@@ -790,6 +790,10 @@ class Prover:
             if re.search(r"Result::<.*>::map_err", u.full) or re.search(r"Result::<.*>::map_err", u.callee_path):
                 cur = u
                 continue
+            if re.search(r"^std::option::Option::<.*>::ok_or(_else)?(::<.*>)?$", u.full) and u.args and u.args[0]["k"] in ("copy", "move") \
+                    and u.args[0]["place"]["l"] == d["l"]:
+                cur = u               # `opt.ok_or_else(err)?`: Ok iff the option was Some
+                continue
             if re.search(r"as std::ops::Try>::branch$", u.callee_path):
                 bd = u.dest
                 if bd is None:
@@ -827,6 +831,19 @@ class Prover:
                     else:
                         # tail position: `check(..)` returned directly or via `?` we could not follow
                         pass
+            # `s.get(..n)` / `s.get_mut(..n)` / `get(a..b)` that turned out Some (through ok_or(_else) and `?`): len(s) >= n
+            for c in self.q._calls:
+                if re.search(r"slice::<impl \[.*\]>::get(_mut)?(::<.*>)?$", c.callee_path) and len(c.args) == 2:
+                    okb = self.ok_block(c)
+                    if okb is None:
+                        continue
+                    self.at = (c.block, 10 ** 6)
+                    try:
+                        rng = self.range_of(c.args[1])
+                    finally:
+                        self.at = None
+                    if rng is not None and rng[0] in ("Range", "RangeTo") and rng[2] is not None:
+                        out.append((okb, c.args[0], rng[2], c.block))
             out.extend(self.contract_facts())
             out.extend(self.compare_facts())
             # a fact about a sub-slice s = &root[k..] is also a fact about root: len(root) >= k + n
